@@ -260,12 +260,22 @@ func runEnumSwitches(c *Ctx, r *Result, rule string, pkgs []string, onlyTypes ma
 	n := 0
 	for _, pn := range pkgs {
 		pkg := c.W.Lib[pn]
+		if pkg == nil {
+			pkg = c.W.Fix[pn]
+		}
+		if pkg == nil {
+			r.LoseAnchor("package %s not loaded", pn)
+			continue
+		}
 		// enum types visible here: own and imported library packages
 		enums := map[*types.Named]*enumInfo{}
 		for _, lp := range c.W.Lib {
 			for k, v := range enumTypes(lp) {
 				enums[k] = v
 			}
+		}
+		for k, v := range enumTypes(pkg) {
+			enums[k] = v
 		}
 		for _, si := range collectSwitches(pkg) {
 			nt, ok := si.TagType.(*types.Named)
